@@ -147,6 +147,44 @@ func c10Exec(j *mc.Job) *mc.JobResult {
 			}
 		}
 	}
+	// compaction borders: the intervals a compaction scans for a configured prefix enclose exactly the
+	// records of the raw keys under that prefix and under none of the skipped prefixes (each skipped
+	// prefix lies inside the node's prefix; sorting the borders cuts it out)
+	if sh.Shard == 1%sh.Of {
+		cfgs := []struct {
+			prefix  string
+			skipped []string
+		}{{"/", nil}, {"/a", nil}, {"/a/", nil}, {"/", []string{"/a"}}, {"/a", []string{"/a/W"}}, {"/", []string{"/a/", "/W"}}, {"/a/a", nil}, {"a", nil}}
+		for _, cf := range cfgs {
+			borders := backend.VerifCompactBorders(cf.prefix, cf.skipped)
+			var pre [][]byte
+			for _, p := range append([]string{cf.prefix}, cf.skipped...) {
+				if !bytes.HasSuffix([]byte(p), []byte("/")) {
+					p += "/"
+				}
+				pre = append(pre, []byte(p))
+			}
+			if len(borders)%2 != 0 {
+				fail("compact-borders", "prefix %q skipped %q: odd number of borders", cf.prefix, cf.skipped)
+				continue
+			}
+			for _, e := range all {
+				want := bytes.HasPrefix(e.k, pre[0])
+				for _, p := range pre[1:] {
+					want = want && !bytes.HasPrefix(e.k, p)
+				}
+				got := false
+				for i := 0; i+1 < len(borders); i += 2 {
+					got = got || (bytes.Compare(e.enc, borders[i]) >= 0 && bytes.Compare(e.enc, borders[i+1]) < 0)
+				}
+				n++
+				if got != want {
+					fail("compact-borders", "node prefix %q, skipped prefixes %q: record (%x,%d) scanned by a compaction: %v, key under the prefix and under no skipped prefix: %v", cf.prefix, cf.skipped, e.k, e.r, got, want)
+					break
+				}
+			}
+		}
+	}
 	// ParseRevision
 	if sh.Shard == 0 {
 		for _, r := range c10Revs {
@@ -206,7 +244,7 @@ func init() {
 	mc.Register(&mc.Property{
 		ID:     "C10",
 		Level:  "exploration",
-		Rule:   "bounded-exhaustive input enumeration: all byte strings of length 0..L over {0x25,'/','0','W','a',0xfe,0xff} (thorough: plus 0x80,0x8b,0xfb, i.e. every byte of the internal magic prefix) x 9 revisions (0,1,2,0xff,0x100,2^32,2^63,2^64-2,2^64-1): round trip for every (key,revision), byte order = (key,revision) order for ALL ordered pairs, range bounds for ALL (start,end,key) triples x 3 revisions, prefix bounds for all (prefix,key) pairs, ParseRevision for lengths 0..12; a case is one evaluated (pair|triple) and all are distinct",
+		Rule:   "bounded-exhaustive input enumeration: all byte strings of length 0..L over {0x25,'/','0','W','a',0xfe,0xff} (thorough: plus 0x80,0x8b,0xfb, i.e. every byte of the internal magic prefix) x 9 revisions (0,1,2,0xff,0x100,2^32,2^63,2^64-2,2^64-1): round trip for every (key,revision), byte order = (key,revision) order for ALL ordered pairs, range bounds for ALL (start,end,key) triples x 3 revisions, prefix bounds for all (prefix,key) pairs, the intervals a compaction scans (production getCompactBorders) for 8 node configurations (prefix with and without trailing slash, the root prefix, one or two skipped prefixes inside it) against every (key,revision) record, ParseRevision for lengths 0..12; a case is one evaluated (pair|triple) and all are distinct",
 		Assume: []string{"keys over bytes greater than '$' only (the documented alphabet); bytes between the sampled ones behave like their neighbours (the functions only compare and copy bytes); the bytes of the coder's own magic prefix are in the alphabet"},
 		Exec:   c10Exec,
 		Drive: func(c *mc.Ctx) {
